@@ -149,8 +149,8 @@ package responder
 //@   ensures [C08,C16] httpstatus(c.writer) == status && httpwrites(c.writer) == old(httpwrites(c.writer)) + 1
 //@   ensures [C08,C01] readall(wbody(c.writer)) == readall(body) && readlen(wbody(c.writer)) == readlen(body)
 //@   ensures [C08,C10] whdr(c.writer) == ident(c.response.Header) && c.response.Header == old(c.response.Header)
-//@   ensures [C01] in(c.response.Header, canonkeyof("Content-Length")) && len(c.response.Header[canonkeyof("Content-Length")]) > 0 && parseok64(sid(c.response.Header[canonkeyof("Content-Length")][0])) ==> wlen(c.writer) == decval(sid(c.response.Header[canonkeyof("Content-Length")][0]))
-//@   ensures [C01] !in(c.response.Header, canonkeyof("Content-Length")) ==> wlen(c.writer) == -1
+//@   ensures [C01,C08] in(c.response.Header, canonkeyof("Content-Length")) && len(c.response.Header[canonkeyof("Content-Length")]) > 0 && parseok64(sid(c.response.Header[canonkeyof("Content-Length")][0])) ==> wlen(c.writer) == decval(sid(c.response.Header[canonkeyof("Content-Length")][0]))
+//@   ensures [C01,C08] !in(c.response.Header, canonkeyof("Content-Length")) ==> wlen(c.writer) == -1
 
 //@ props C08 C10 C16
 //@ func RawHTTPResponder.WriteEmpty
